@@ -587,6 +587,25 @@ func FPToInt64(a *Term) *Term {
 		}
 		return MkBV(64, uint64(int64(f)))
 	}
+	// exact round trip: integers of magnitude <= 2^53 survive int -> float64 -> int64
+	if a.S.W == 64 && (a.Op == OFPOfUBV || a.Op == OFPOfSBV) && a.Args[0].S.W <= 64 {
+		x := a.Args[0]
+		var x64, small *Term
+		if a.Op == OFPOfUBV {
+			x64 = Zext(x, 64)
+			small = Ule(x64, MkBV(64, 1<<53))
+		} else {
+			x64 = Sext(x, 64)
+			small = And(Sle(MkBV(64, ^uint64(1<<53)+1), x64), Sle(x64, MkBV(64, 1<<53)))
+		}
+		if !small.IsFalse() {
+			return Ite(small, x64, fpToInt64Raw(a))
+		}
+	}
+	return fpToInt64Raw(a)
+}
+
+func fpToInt64Raw(a *Term) *Term {
 	a64 := FPToFP(a, 64)
 	lo := MkFloat64(-9223372036854775808.0)
 	hi := MkFloat64(9223372036854775808.0)
